@@ -49,3 +49,6 @@ func VerifHarness_LexSmoke() {
 		errors.VerifAssert("cursor-in-range", lx.currentIndex <= n+1)
 	}
 }
+
+// VerifLexerFromRunes: a lexer over the given runes (which may be solver variables), for harnesses of other packages.
+func VerifLexerFromRunes(prog []rune) Lexer { return verifMkLexer(prog) }
